@@ -66,11 +66,17 @@ def coherent(m):
     return None
 
 
-def _symmetric(m):
+def _symmetric(m, skeleton=False):
+    """the molecule has constitutionally equivalent atoms; skeleton=True: equivalent once charges, radicals and bond orders are ignored
+    (atoms that exchange their roles between two resonance / localised forms of one molecule)"""
     from ..oracle import symmetry
     try:
         pl = symmetry.plain_from_chython(m)
-        orb = symmetry.orbits(pl[0], pl[1])
+        atoms, adj = pl[0], pl[1]
+        if skeleton:
+            atoms = {n: (a[0], a[1]) for n, a in atoms.items()}
+            adj = {n: {k: 1 for k in ks} for n, ks in adj.items()}
+        orb = symmetry.orbits(atoms, adj)
     except Exception:
         return False
     return len(set(orb.values())) < len(orb)
@@ -134,7 +140,11 @@ def check_ops(acc, m0, tag, bad, ops, perms=(), taut_perms=False):
         try:
             f(m2)
             if snap(m2) != s1:
-                bad('%s is not idempotent' % name, op=name, first=str(m), second=str(m2))
+                if _symmetric(m, skeleton=True) and str(m2) == str(m):
+                    # one molecule; the second pass only picked another of several equivalent localised forms (e.g. which NH2 of a guanidinium carries the double bond)
+                    acc.ood['symmetric molecule: second pass gives the same molecule in an equivalent localised form'] += 1
+                else:
+                    bad('%s is not idempotent' % name, op=name, first=str(m), second=str(m2))
         except Exception as e:
             bad('second %s raised %s' % (name, type(e).__name__), op=name)
         results[name] = s1
@@ -198,7 +208,7 @@ def check_ops(acc, m0, tag, bad, ops, perms=(), taut_perms=False):
             if got != exp:
                 # a deterministic choice of ONE localised form of a symmetric input cannot commute with every renumbering (an automorphism of the input would have
                 # to fix the output): for inputs with constitutionally equivalent atoms the outputs must be the same molecule, for all others the same labelled graph
-                if _symmetric(m0) and results_str.get(name) is not None and str(m) == results_str[name]:
+                if _symmetric(m0, skeleton=True) and results_str.get(name) is not None and str(m) == results_str[name]:
                     acc.ood['symmetric input: outputs are one molecule, placed differently by an automorphism of the input'] += 1
                     continue
                 bad('%s result depends on atom numbering%s' % (name, ' / storage order' if storage == 'reversed' else ''), op=name, numbering=list(p), got=str(m))
@@ -368,7 +378,10 @@ def run_corpus(shard):
                                      '[CH-]1C=CC=C1', 'C[C-]1C=CC=C1', '[CH-]1C=Cc2ccccc12', 'C1=CC2=CC=CC=C2[CH-]1', '[CH-]1c2ccccc2-c2ccccc12', '[Na+].[CH-]1C=Cc2ccccc12', '[Fe+2].[CH-]1C=Cc2ccccc12.[CH-]1C=Cc2ccccc12',
                                      'C[C-]1C=Cc2ccccc12',
                                      # atoms carrying explicit AND implicit hydrogens; rules that turn a RING bond into a coordinate bond
-                                     '[H]NC', '[H]C([H])C', '[H][NH2+]C', '[H]OC([H])C', '[2H]NC', 'CN12CC(=O)OB1(c1ccccc1)OC(=O)C2', 'C1=N2CCCB2CC1', 'CN1CCO[B-]1(C)C', 'C1CC[N+]2(C1)CCC[B-]2(F)F')]
+                                     '[H]NC', '[H]C([H])C', '[H][NH2+]C', '[H]OC([H])C', '[2H]NC', 'CN12CC(=O)OB1(c1ccccc1)OC(=O)C2', 'C1=N2CCCB2CC1', 'CN1CCO[B-]1(C)C', 'C1CC[N+]2(C1)CCC[B-]2(F)F',
+                                     # unbalanced acid/base counts (more cationic acids than anionic bases and the converse)
+                                     '[NH3+]CCCC[C@H]([NH3+])C([O-])=O', 'NC(=[NH2+])NCCC[C@H]([NH3+])C([O-])=O', '[NH3+]CC[NH3+].CC(=O)[O-]', '[O-]C(=O)CC([O-])=O.C[NH3+]', '[NH3+]CC([O-])=O.[NH3+]CC([O-])=O.[Cl-]',
+                                     'C[NH2+]CC[NH+](C)CC([O-])=O', '[O-]C(=O)C[NH+](CC([O-])=O)CC([O-])=O', 'OC(=O)CC[NH3+]')]
     rows += [('taut-stereo', s) for s in inputs.tautomer_stereo_family()]
     for i, (fam, s) in enumerate(rows):
         if i % nsh != k:
